@@ -125,10 +125,15 @@ def _warm():
 
 
 def _setup_lines():
-    import mpservice.streamer._tee as m
-    from vf import linemon
+    # optional observer: if the module has been renamed/moved the family still runs, with lock/blocking preemption points only
+    try:
+        import importlib
 
-    linemon.install([m.__file__])
+        from vf import linemon
+
+        linemon.install([importlib.import_module('mpservice.streamer._tee').__file__])
+    except Exception:
+        pass
     _warm()
 
 
